@@ -4,7 +4,7 @@ connection check evaluated in Lean on the IMPLEMENTATION's output (spec)."""
 import numpy as np
 from common import gen_dem_net, canon_idx, ints, exc_class, topo_of, D8_DRDC
 
-OPS = ["upscale(dmm)", "upscale(eam)", "upscale(eam_plus)", "upscale(ihu)", "upscale_error",
+OPS = ["outlet_pix", "new_outlet", "upscale(dmm)", "upscale(eam)", "upscale(eam_plus)", "upscale(ihu)", "upscale_error",
        "upscale_error(perturbed)", "kernels(exitcell,repcell,nextidx,outlets,maps)", "kernels(arbitrary rep)",
        "arith(subidx_2_idx,cell_edge,in_d8)", "upscale_check"]
 RULE = ("loop-free D8/LDD rasters derived by the harness from random DEM-style networks (true 8-neighbour links), "
@@ -332,6 +332,38 @@ def run_network(ctx, ds, shape, s, ftype, upa_kind, upa_arr, upa_int, methods=ME
                            "ncol": shape1[1]}, "up_arith",
                      {"subidx": ps, "subncol": subncol, "cs": s, "ncol": shape1[1], "idx0": i0, "idx1": i1}, imp, None)
 
+    # pieces of ihu's iterative stages: outlet_pix and new_outlet on the first-pass (eam_plus) state
+    if "eam_plus" in results and rng.random() < 0.6:
+        _, _, cds0, o0 = results["eam_plus"]
+        vc0 = [c for c in range(n1) if o0[c] != n and cds0[c] != n1]
+        if vc0:
+            o_np = np.array([mv if p == n else p for p in o0], dtype=idxs_ds.dtype)
+            c_np = np.array([mv if p == n1 else p for p in cds0], dtype=idxs_ds.dtype)
+            minlen, minupa = s * 0.25, s * s * 0.25
+            _, streams, _, _ = U.upscale_check(o_np, c_np, idxs_ds, minlen=minlen, mv=mv)
+            heads = [c for c in vc0 if all(cds0[c2] != c or c2 == c for c2 in range(n1))]
+            picks = rng.sample(heads, min(2, len(heads))) + [rng.choice(vc0)]
+            allflag = rng.random() < 0.3
+            imp = {f"pix{k}": [int(x) for x in U.outlet_pix(c, idxs_ds, shape1[1], subncol, s, all=allflag)]
+                   for k, c in enumerate(picks)}
+            _add_kernels(ctx, {"op": "outlet_pix", "idxs": picks, "all": allflag, **base}, "up_outlet_pix",
+                         {"ds": ds, "subshape": list(shape), "cs": s, "idxs": picks, "all": int(allflag)}, imp, None)
+            upa4 = list(upa_model) if upa_kind == "user-quarter" else [4 * x for x in upa_model]
+            for idx0 in picks:
+                target = None
+                if rng.random() < 0.3 and cds0[idx0] != idx0:
+                    target = o0[cds0[idx0]]
+                st, cd, ou, found = U.new_outlet(idx0, o0[idx0], streams.copy(), c_np.copy(), o_np.copy(), idxs_ds,
+                                                 upa_flat, shape1[1], subncol, s, minlen=minlen, minupa=minupa, mv=mv,
+                                                 subidx1=target)
+                if found:
+                    ctx.count("feature:new_outlet-found")
+                imp = {"streams": ints(st), "cds": canon_idx(cd, n1), "out": canon_idx(ou, n), "found": [int(bool(found))]}
+                _add_kernels(ctx, {"op": "new_outlet", "idx0": idx0, "target": target, **base}, "up_new_outlet",
+                             {"ds": ds, "subshape": list(shape), "cs": s, "upa": upa4, "streams": ints(streams),
+                              "cds": cds0, "out": o0, "idx0": idx0, "subidx0": o0[idx0], "min_num": s, "min_den": 4,
+                              "minupa": s * s, "target": target}, imp, None)
+
     # perturbed coarse networks / outlets for the connection check and upscale_check
     src = results.get(rng.choice(METHODS))
     if src is not None and rng.random() < 0.8:
@@ -397,6 +429,13 @@ def _add_upscale(ctx, desc, common_args, method, shape_impl, shape1, cds, o, ds,
                 continue  # already reported more precisely
             if a["spec." + bit] != [1]:
                 fs.append({"kind": "spec", "what": f"{method}: {what}", "impl.cds": cds, "impl.out": o})
+        for hyp, what in (("geo", "fine array size / scale factor"), ("finewf", "valid fine cells point to valid fine cells"),
+                          ("fined8", "fine links join 8-neighbours"),
+                          ("eacross", "the implementation's effective-area map contains the centre cross of every coarse cell"),
+                          ("upamono", "upstream area strictly increases downstream")):
+            if a["hyp." + hyp] != [1]:
+                fs.append({"kind": "model", "what": f"hypothesis of the by-construction theorems (eam_valid, dmm_valid, "
+                                                    f"eam_plus_valid) does not hold on this input: {what}"})
         if method != "ihu" and a["spec.owncell"] != [1]:
             fs.append({"kind": "spec", "what": f"{method}: outlet pixel outside its own coarse cell",
                        "impl.cds": cds, "impl.out": o})
